@@ -199,6 +199,27 @@ def run(tier):
     aggs = [s for b in bfm.body.blocks if not b.cleanup for s in b.stmts if s.k == 'assign' and s.rv.k == 'agg' and (s.rv.d.get('adt') or '').endswith('uplink::Uplink')]
     oka = len(aggs) == 1 and sorted(aggs[0].rv.d['fields']) == ['confirmed', 'pending']
     res.require(oka, 'C20:Uplink:deserialize:construct', 'Uplink is not rebuilt as {pending, confirmed}', bfm.body.path, 'SAME-VALUE(fields)', instance='Uplink rebuilt from {pending, confirmed}')
+    # every successful return hands back that aggregate: confirmed = the value read for "confirmed", pending = the Vec filled from the data read
+    ok_rets = []
+    for b in bfm.body.blocks:
+        if b.cleanup or b.idx not in bfm.cfg.reach:
+            continue
+        for s_ in b.stmts:
+            if s_.k == 'assign' and s_.lhs.local == 0 and not s_.lhs.proj and s_.rv.k == 'agg' and s_.rv.d.get('variant') == 'Ok':
+                ok_rets.append((b.idx, peel(term_of_operand(bfm, s_.rv.ops[0]))))
+    okr = len(ok_rets) == 1 and ok_rets[0][1][0] == 'agg' and ok_rets[0][1][1].endswith('uplink::Uplink')
+    if okr:
+        fl = dict(ok_rets[0][1][2])
+        cf = fl.get('confirmed')
+        # payload of ok_or_else(<option local filled by next_value under the Confirmed key>, missing_field("confirmed"))
+        src = rules.find_in_term(cf, lambda y: isinstance(y, tuple) and len(y) >= 3 and y[0] == 'call' and y[1].endswith('ok_or_else'))
+        okr = src is not None and peel(src[2][0])[0] == 'phi'
+        if okr:
+            defs = rules.defs_with_conditions(bfm, peel(src[2][0])[1])
+            okr = any(has_call(dv, 'next_value') for dv, cs, b_ in defs) and all(has_call(dv, 'next_value') or (dv[0] == 'agg' and dv[1].endswith('Option::None')) for dv, cs, b_ in defs)
+        okr = okr and len(ext) == 1 and bfm.cfg.dominates(ext[0][0], ok_rets[0][0])
+    res.require(okr, 'C20:Uplink:deserialize:single-ok', 'restoring an Uplink does not always return {pending filled from the data read, confirmed = the value read}: %d successful return(s) %s' % (
+        len(ok_rets), [term_str(t)[:80] for b_, t in ok_rets]), bfm.body.path, 'SAME-VALUE(every Ok return = values read)', instance='Uplink: the only successful return is {pending <- data read, confirmed <- value read}')
     fv = [b for p_, bl in prog.by_short.items() for b in bl if 'for lorawan_device::mac::uplink::Uplink>::deserialize' in p_ and '__FieldVisitor' in p_ and p_.endswith('::visit_str')]
     names = set()
     for b in fv:
